@@ -689,7 +689,13 @@ class Executor:
             if cut is not None and not st.ghost.get(("cut", target.id)):
                 # cut rule: prove an intermediate fact about the freshly assigned variable once, then assume it
                 st.ghost[("cut", target.id)] = True
+                all_ok = True
                 for name, f in cut(self, {**st.vars, "__state__": st}):
+                    if name == "__rebind__":
+                        # the facts proved so far show the variable extensionally equal to a simpler value: continue with that
+                        if all_ok:
+                            st.vars[target.id] = f
+                        continue
                     if name == "__deferred__":
                         for n2, f2 in f(self, {**st.vars, "__state__": st}):
                             if self.oblige(st, f2, f"{self.contract.prefix}.cut.{target.id}.{n2}", f"intermediate fact about {target.id}: {n2}"):
@@ -697,6 +703,8 @@ class Executor:
                         continue
                     if self.oblige(st, f, f"{self.contract.prefix}.cut.{target.id}.{name}", f"intermediate fact about {target.id}: {name}"):
                         st.assume(f)
+                    else:
+                        all_ok = False
         elif isinstance(target, (ast.Tuple, ast.List)):
             vals = self.unpack(value, len(target.elts), st)
             for t, v in zip(target.elts, vals):
